@@ -90,10 +90,10 @@ Proof.
     + rewrite (set_unparsable fixed x _ i (nid + 1) G Hp). cbn. repeat split; auto. left; reflexivity.
   - (* Get *)
     destruct (atoi i) as [z|] eqn:Hp.
-    + rewrite (get_char x i z G Hp). cbn [fst snd h_arg sstep abs_obs]. repeat split; auto.
+    + rewrite (get_char fixed x i z G Hp). cbn [fst snd h_arg sstep abs_obs]. repeat split; auto.
       right. destruct (elem_at (abs x) z) as [t|] eqn:E; [|reflexivity].
       rewrite deref_mkref, E, ref_idx_mkref. reflexivity.
-    + rewrite (get_unparsable x i G Hp). cbn. repeat split; auto. left; reflexivity.
+    + rewrite (get_unparsable fixed x i G Hp). cbn. repeat split; auto. left; reflexivity.
   - (* Compare *)
     assert (U : fst (match si_compare fixed x c r [i] with
                      | Ret b0 e => ({| h_arg := x; h_nid := nid |}, OCmp b0 e)
@@ -106,23 +106,23 @@ Proof.
     rewrite (compare_char fixed x c' r i z G Hp (or_introl eq_refl)). cbn [snd abs_obs].
     repeat split; auto. right; reflexivity.
   - (* Length *)
-    assert (U : fst (match si_length x p with
+    assert (U : fst (match si_length fixed x p with
                      | Ret r e => ({| h_arg := x; h_nid := nid |}, OWr r e)
                      | Panic k => ({| h_arg := x; h_nid := nid |}, OPanic k) end) = {| h_arg := x; h_nid := nid |}).
-    { destruct (si_length x p); reflexivity. }
+    { destruct (si_length fixed x p); reflexivity. }
     rewrite U. clear U. cbn [h_arg].
     destruct p as [|i [|q p']]; cbn [sstep fst snd]; try (repeat split; auto; left; reflexivity).
     destruct (atoi i) as [z|] eqn:Hp; cbn [sstep fst snd]; try (repeat split; auto; left; reflexivity).
-    rewrite (length_char x i z G Hp). cbn [snd abs_obs]. repeat split; auto. right.
+    rewrite (length_char fixed x i z G Hp). cbn [snd abs_obs]. repeat split; auto. right.
     destruct (length_at (abs x) z); reflexivity.
   - (* Capacity *)
-    assert (U : fst (match si_capacity x p with
+    assert (U : fst (match si_capacity fixed x p with
                      | Ret r e => ({| h_arg := x; h_nid := nid |}, OWr r e)
                      | Panic k => ({| h_arg := x; h_nid := nid |}, OPanic k) end) = {| h_arg := x; h_nid := nid |}).
-    { destruct (si_capacity x p); reflexivity. }
+    { destruct (si_capacity fixed x p); reflexivity. }
     rewrite U. cbn. repeat split; auto. left; reflexivity.
   - (* Loop *)
-    destruct (loop_abs x G) as (vs & L & M). rewrite L. cbn [fst snd h_arg sstep abs_obs].
+    destruct (loop_abs fixed x G) as (vs & L & M). rewrite L. cbn [fst snd h_arg sstep abs_obs].
     repeat split; auto. right. rewrite M. reflexivity.
   - (* DeepEqual *)
     assert (U : fst (match si_deep_equal fixed x y with
@@ -135,23 +135,26 @@ Proof.
   - (* CopyFrom *)
     destruct (good src) eqn:Gs.
     + destruct x as [s|s|?|]; try discriminate.
-      * rewrite (copy_to_by_value src s nid Gs). cbn. repeat split; auto. right; reflexivity.
-      * rewrite (copy_to_char src s nid Gs). cbn [fst snd h_arg is_ptr sstep abs_obs good rep_of].
+      * rewrite (copy_to_by_value fixed src s nid Gs). cbn. repeat split; auto. right; reflexivity.
+      * rewrite (copy_to_char fixed src s nid Gs). cbn [fst snd h_arg is_ptr sstep abs_obs good rep_of].
         repeat split; auto; [apply rep_append_all| |right; reflexivity].
         unfold abs at 1. cbn [elems_of]. rewrite abs_append_all. unfold copy_appended, abs, abs_elems. cbn [elems_of].
         rewrite copies_data. reflexivity.
     + cbn [sstep fst snd].
-      assert (U : fst (match si_copy_to src x nid with
+      assert (U : fst (match si_copy_to fixed src x nid with
                        | Ret (x', n') e => ({| h_arg := x'; h_nid := n' |}, ODone e)
                        | Panic k => ({| h_arg := x; h_nid := nid |}, OPanic k) end) = {| h_arg := x; h_nid := nid |} \/
-                  exists n, fst (match si_copy_to src x nid with
+                  exists n, fst (match si_copy_to fixed src x nid with
                        | Ret (x', n') e => ({| h_arg := x'; h_nid := n' |}, ODone e)
                        | Panic k => ({| h_arg := x; h_nid := nid |}, OPanic k) end) = {| h_arg := x; h_nid := n |}).
-      { destruct src as [?|?|?|]; try discriminate; [left; reflexivity|].
-        right. exists nid. destruct x; reflexivity. }
+      { destruct src as [?|?|?|]; try discriminate.
+        - (* a nil pointer holds no sequence: nothing is appended *)
+          right. destruct x as [d|d|?|]; try discriminate; [exists nid; reflexivity|].
+          exists (nid + 0). unfold si_copy_to; simpl. destruct (q_rep d); reflexivity.
+        - right. exists nid. destruct x; reflexivity. }
       destruct U as [U|(n & U)]; rewrite U; cbn [h_arg]; repeat split; auto; left; reflexivity.
   - (* CopyOut *)
-    rewrite (copy_to_char x (nil_sq rr) nid G). cbn [fst snd h_arg sstep abs_obs].
+    rewrite (copy_to_char fixed x (nil_sq rr) nid G). cbn [fst snd h_arg sstep abs_obs].
     repeat split; auto. right. f_equal. unfold abs. cbn [elems_of]. rewrite abs_append_all.
     unfold copy_appended, abs_elems. cbn [nil_sq q_elems map app]. rewrite copies_data. reflexivity.
   - (* Reset *)
